@@ -3,11 +3,38 @@
 package main
 
 import (
+	"encoding/json"
 	"flag"
 	"fmt"
 	"os"
+	"path/filepath"
 	"sort"
+
+	"verifharness/internal/ev"
+	"verifharness/internal/tlc"
 )
+
+// writeCoverage records the TLC per-action counts of this run (VERIF_COVERAGE=1) in coverage/<check>.json;
+// `./check selftest` reads them back to report actions no configuration ever takes.
+func writeCoverage(name string) {
+	tot, runs := tlc.CoverageTotals()
+	if len(tot) == 0 {
+		return
+	}
+	type act struct{ Distinct, Generated int64 }
+	out := struct {
+		Check   string         `json:"check"`
+		Runs    map[string]int `json:"tlc_runs"`
+		Actions map[string]act `json:"actions"`
+	}{name, runs, map[string]act{}}
+	for k, v := range tot {
+		out.Actions[k] = act{v[0], v[1]}
+	}
+	b, _ := json.MarshalIndent(out, "", " ")
+	dir := filepath.Join(ev.VerifDir, "coverage")
+	os.MkdirAll(dir, 0755)
+	os.WriteFile(filepath.Join(dir, name+".json"), append(b, '\n'), 0644)
+}
 
 type checkFn func(c *Ctx) int
 
@@ -54,6 +81,7 @@ func main() {
 			}
 		}()
 		code = f(c)
+		writeCoverage(name)
 	}()
 	os.Exit(code)
 }
